@@ -71,7 +71,7 @@ def behaviour_of(segment):
         a = {"a": e}
         for k in ("c", "p", "r", "res", "add", "del", "cust", "prov",
                   "margin", "timing", "in_parent", "for_child", "x", "lim",
-                  "nolim"):
+                  "nolim", "fam"):
             if k in ev:
                 a[k] = ev[k]
         if e == "Step":
@@ -332,7 +332,13 @@ CLAUSES = {
         _a("FIssue", c="F", x="new", lim=["a1"], nolim=False), _a("Settle"),
         _a("ChildRes", c="F", p="B", res=["p1", "a1"]),
         _a("FIssue", c="F", x="new", lim=["a1"], nolim=False), _a("Settle"),
-        _a("FRevoke", c="F", x="cur"), _a("Settle")]},
+        _a("FRevoke", c="F", x="cur"), _a("Settle"),
+        # a limit on the IPv4 family only: the AS comes as offered
+        _a("FIssue", c="F", x="cur", lim=["p1"], nolim=False, fam="v4"),
+        _a("Settle"),
+        _a("FIssue", c="F", x="cur", lim=["p1", "p2"], nolim=False, fam="v4"),
+        _a("FIssue", c="F", x="cur", lim=[], nolim=False, fam="v4"),
+        _a("Settle")]},
     # C01 / C04: the new key's certificate holds more than the old key's
     # (the entitlement grew after the roll began): at activation every
     # configured authorisation the new certificate covers gets its object,
